@@ -117,6 +117,32 @@ def main(tier):
         j["out"] = os.path.join(out, j["id"] + ".ndjson")
         dyn.append(j)
     pipecheck.run_traces(ck, dyn, out, variant="asan", accept_abort=True)
+    # symmetric mode where pivots must leave the diagonal (explicit zeros on the diagonal): the Cholesky-based reserve cannot hold L;
+    # the library must stop with a diagnostic or return an error, not write outside its slots (recorded finding F20)
+    soff = []
+    for i, k in enumerate((5, 8, 10) if quick else (4, 5, 6, 8, 10, 12)):
+        j = {"id": "so%d" % i, "gen": "grid", "kl": k, "n": k * k, "P": 2, "ps": 8, "relax": 6, "maxsuper": 100, "pert": 0, "seed": 5, "vstyle": 0, "order": 2,
+             "u": "0", "sym": 1, "zd": 60, "timeout": 120, "out": os.path.join(out, "so%d.ndjson" % i)}
+        soff.append(j)
+    st = pipe.run_jobs(soff, out, variant="asan")
+    wd = os.path.join(ck.dir, "tlc_so")
+    tlc.stage(wd)
+    for j in soff:
+        s_ = st.get(j["id"], "missing")
+        key = "symoffdiag:grid%d" % j["kl"]
+        ck.case(key)
+        bad = None
+        if s_ == "exit:42":
+            continue                       # the library's own diagnostic: acceptable
+        if s_ != "ok":
+            bad = "job ended with %s (sanitizer report / signal)" % s_
+        elif os.path.exists(j["out"]):
+            pipe.prepare(j["out"])
+            r = tlc.pipe_trace(wd, j["id"], j["out"])
+            if not r["ok"]:
+                bad = "trace rejected: " + pipe.explain(r, j["out"])[:300]
+        if bad:
+            ck.violation(key, "symmetric mode with pivots off the diagonal (%dx%d grid, explicit zero diagonal entries): %s" % (j["kl"], j["kl"], bad), {"job": j})
     return ck.finish()
 
 
